@@ -38,6 +38,9 @@ class StructBase(Check):
             for k in range(140):
                 lines.append("edge %s V0 V%d" % (rng.choice("DU"), 1 + k % 2) if k % 3 else "edge D V%d V0" % (1 + k % 2))
             lines.append("obs")
+            # parallel links whose relative order differs in the two ends' lists (L0 left V1 and came back: last in V1's list,
+            # still first in the hub's): `dontdup` returns the first joining link in the order of its FIRST argument
+            lines += ["setv1 L0 V2", "setv1 L0 V1", "linkft V0 D V1 1", "linkft V1 D V0 1", "linkft V0 U V1 1", "obs"]
             for l in [126, 127, 128, 129, 130, 64, 139]:
                 lines.append(rng.choice(["lunlink L%d V0" % l, "rmfromlink V0 L%d" % l, "setv1 L%d V2" % l, "setv2 L%d V1" % l]))
                 lines.append(rng.choice(["addtolink V0 L%d" % l, "ladd L%d V0" % l]))
@@ -397,7 +400,7 @@ class C19(StructBase):
                 yield from gen.enumerate_histories(real, lines, pool, self.opsfn, sz["depth"] + 1)
 
             def with_edits(p, rng_):
-                yield "lawset %d" % rng_.choice([1, 2, 3])
+                yield "lawset %d" % rng_.choice([1, 2, 3, 4, 4])
                 yield "mut %d %d" % (rng_.randrange(10 ** 6), rng_.randrange(10 ** 6))
             for _ in range(sz["rand"]):
                 fn = all_ops if rng.random() < 0.3 else self.opsfn
@@ -461,6 +464,17 @@ class C19(StructBase):
                     u.laws = laws[i]
                     want[i], want[1 - i] = weakref.ref(u), None
                     del u
+                elif r < 0.96:
+                    # a `laws` entry in the attributes dictionary: refused (AttributeError) or honoured, never half of each
+                    hist.append("Universe(attributes={'laws': L%d})" % i)
+                    try:
+                        Universe(attributes={"laws": laws[i]})
+                    except Warning:
+                        raise
+                    except Exception:  # noqa: BLE001   (a refused construction changes nothing)
+                        pass
+                    else:
+                        want[i] = weakref.ref(laws[i].applies_to) if laws[i].applies_to is not None else "lost"
                 else:
                     hist.append("gc.collect()")
                     gc.collect()
